@@ -98,6 +98,20 @@ Definition cmd_transform_gen (c0 : cfg) (o0 : obj) (inn : list (cfg * obj)) : se
   | _, _ => SL [SI 5]
   end.
 
+(* cmd 31: transform(f_node, f_leaf) with one answer per node of the array in call order (None: the
+   function of that node's class is absent or returned its argument) — TransformArr.arr_transform_all *)
+Fixpoint flatten_answers (l : list (option (cfg * obj))) : res (list (option spec)) :=
+  match l with
+  | [] => Ok []
+  | None :: l' => do r <- flatten_answers l' ;; Ok (None :: r)
+  | Some (c, o) :: l' => do f <- flatten c o ;; do r <- flatten_answers l' ;; Ok (Some (snd f) :: r)
+  end.
+Definition cmd_transform_all (c0 : cfg) (o0 : obj) (answers : list (option (cfg * obj))) : sexp :=
+  match flatten c0 o0, flatten_answers answers with
+  | Ok (_, sp0), Ok ans => SL [SI 0; enc_res enc_spec (TransformArr.arr_transform_all sp0 ans)]
+  | _, _ => SL [SI 5]
+  end.
+
 (* cmd 28: repr(treespec) as the token list of ToStringImpl (Repr.v) *)
 Definition lit_code (l : Repr.lit) : Z :=
   match l with
@@ -677,6 +691,19 @@ Definition run (s : sexp) : sexp :=
                           | _ => None
                           end) inn with
     | Some c', Some o', Some inn' => cmd_transform_gen c' o' inn'
+    | _, _, _ => bad
+    end
+  | SL [SI 31; c; o; SL answers] =>
+    match dec_cfg c, dec_obj o,
+          omapM (fun x => match x with
+                          | SL [] => Some None
+                          | SL [ci; oi] => match dec_cfg ci, dec_obj oi with
+                                           | Some ci', Some oi' => Some (Some (ci', oi'))
+                                           | _, _ => None
+                                           end
+                          | _ => None
+                          end) answers with
+    | Some c', Some o', Some answers' => cmd_transform_all c' o' answers'
     | _, _, _ => bad
     end
   | SL [SI 25; c; p; f] =>
